@@ -548,6 +548,9 @@ func sameValue(value1 *ast.Value, value2 *ast.Value) bool {
 }
 
 func doTypesConflict(walker *Walker, type1 *ast.Type, type2 *ast.Type) bool {
+	if type1.NonNull != type2.NonNull {
+		return true
+	}
 	if type1.Elem != nil {
 		if type2.Elem != nil {
 			return doTypesConflict(walker, type1.Elem, type2.Elem)
@@ -555,12 +558,6 @@ func doTypesConflict(walker *Walker, type1 *ast.Type, type2 *ast.Type) bool {
 		return true
 	}
 	if type2.Elem != nil {
-		return true
-	}
-	if type1.NonNull && !type2.NonNull {
-		return true
-	}
-	if !type1.NonNull && type2.NonNull {
 		return true
 	}
 
